@@ -13,3 +13,5 @@ import PvModel.Props.C16
 #print axioms Pv.C16_run_exact
 #print axioms Pv.C16_run_constraints_exact
 #print axioms Pv.C16_program_sound
+#print axioms Pv.C16_live
+#print axioms Pv.C16_ground_answer_sound
